@@ -951,7 +951,8 @@ type lh struct {
 
 func (op *lh) Run(ctx *Context, _ map[string]int32, pc int32, memory []int8, sequenceID int32) (Execution, error) {
 	n := bytes.I32FromBytes(memory[0], memory[1], 0, 0)
-	register, value := IsRegisterChange(op.rd, n)
+	// Sign-extend the half-word
+	register, value := IsRegisterChange(op.rd, int32(int16(n)))
 	return Execution{
 		RegisterChange: true,
 		Register:       register,
@@ -964,11 +965,11 @@ func (op *lh) InstructionType() InstructionType {
 }
 
 func (op *lh) ReadRegisters() []RegisterType {
-	return []RegisterType{op.rs, op.rd}
+	return []RegisterType{op.rs}
 }
 
 func (op *lh) WriteRegisters() []RegisterType {
-	return nil
+	return []RegisterType{op.rd}
 }
 
 func (op *lh) Forward(forward Forward) {
